@@ -642,3 +642,13 @@ Proof.
   apply register_bd_inv in H. destruct H as [B _].
   pose proof (bd_port_small _ _ _ _ _ A D B Hp). rewrite Hs, N.mod_small; auto.
 Qed.
+
+(* ---------------- the configuration is invariant over any request list ---------------- *)
+Lemma serve_all_spec : forall l cfg,
+  fst (serve_all cfg l) = cfg /\
+  snd (serve_all cfg l) = map (fun i => register_bd cfg (i_req i) (i_addr i) (i_method i) (i_env i)) l.
+Proof.
+  induction l as [|i r IH]; intros cfg; simpl; auto.
+  destruct (serve_all cfg r) as [cfg2 os] eqn:E. specialize (IH cfg). rewrite E in IH. simpl in *.
+  destruct IH as [-> ->]. auto.
+Qed.
